@@ -620,6 +620,14 @@ func rowLess(ri, rj Row, c SortConfig) bool {
 		si, sj = ci.T.Format(time.RFC3339Nano), cj.T.Format(time.RFC3339Nano)
 	}
 	l := stringLess(si, sj, cfg.Desc)
+	// Numbers and time anchors are not ordered by their text: "-3" sorts
+	// before "-5", and the same instant prints differently in two zones.
+	if n, ok := valueOrder(ci, cj); ok {
+		l = n
+		if cfg.Desc {
+			l = -l
+		}
+	}
 	if l < 0 {
 		return true
 	}
@@ -630,6 +638,34 @@ func rowLess(ri, rj Row, c SortConfig) bool {
 }
 
 // Less returns true if the i row is less than j one.
+// valueOrder orders two cells that hold int64 literals, float64 literals or
+// time anchors by value: -1, 0 or 1. ok is false for every other pair of
+// cells.
+func valueOrder(ci, cj *Cell) (int, bool) {
+	order := func(less, greater bool) int {
+		switch {
+		case less:
+			return -1
+		case greater:
+			return 1
+		}
+		return 0
+	}
+	switch {
+	case ci.T != nil && cj.T != nil:
+		return order(ci.T.Before(*cj.T), ci.T.After(*cj.T)), true
+	case ci.L != nil && cj.L != nil && ci.L.Type() == literal.Int64 && cj.L.Type() == literal.Int64:
+		vi, _ := ci.L.Int64()
+		vj, _ := cj.L.Int64()
+		return order(vi < vj, vi > vj), true
+	case ci.L != nil && cj.L != nil && ci.L.Type() == literal.Float64 && cj.L.Type() == literal.Float64:
+		vi, _ := ci.L.Float64()
+		vj, _ := cj.L.Float64()
+		return order(vi < vj, vi > vj), true
+	}
+	return 0, false
+}
+
 func (c bySortConfig) Less(i, j int) bool {
 	ri, rj, cfg := c.rows[i], c.rows[j], c.cfg
 	return rowLess(ri, rj, cfg)
